@@ -142,12 +142,26 @@ def run(ctx: Ctx) -> None:
         "name and bin dimensions; min_area = (min_bins-1)*bin_area+1. "
         "D17.3 the only random generator is seeded from the bytes of x and "
         "decode writes no field. D17.4 the instgen objectives clamp their "
-        "result into [0,1]. Not decided: lower_bound_bins == min_bins as a "
-        "value, Errors == 0 on the template.")
+        "result into [0,1]. D17.5 every size written into an item is >= 1 "
+        "under the guards of its cut (linear entailment). D17.6 the item "
+        "list is only indexed with a value reduced modulo the current "
+        "number of items. D17.7 equal items are merged into one row whose "
+        "multiplicity is the length of their run (scan / append / delete "
+        "protocol: the total number of items is preserved) and the "
+        "instance, built from the merged list, reaches the receiver on "
+        "every path. D17.8 the cutting dimension stays in {0, 1}, the "
+        "search direction in {-1, +1}, the search steps to (sel_i + "
+        "sel_dir) mod n, the bounded search advances when it wraps, and no "
+        "modulus is taken by a possibly-zero cut_modulus. Not decided: "
+        "lower_bound_bins == min_bins as a value (needs the validity of "
+        "the DAMV bound, C03), Errors == 0 on the template, termination of "
+        "phase 1's search when no item can be cut at all.")
     for rid, txt in (("D17.1", "area ledger / conservation / one append"),
                      ("D17.2", "dataflow into Instance(...) and min_area"),
                      ("D17.3", "determinism: seed derives from x only"),
                      ("D17.4", "objectives clamp to [0,1]")):
+        ctx.rule(rid, txt)
+    for rid, txt in ():
         ctx.rule(rid, txt)
     fi = repo.func(DEC, "InstanceDecoder.decode")
     body = func_body(fi)
@@ -160,8 +174,21 @@ def run(ctx: Ctx) -> None:
         if isinstance(n, ast.Call) and repo.resolve_expr(
                 fi.module, n.func) is inst_cls:
             call = n
-    ctx.need(call is not None and len(call.args) == 4 and isinstance(
-        call.args[3], ast.Name), "decode: Instance(name, w, h, items)")
+    ctx.need(call is not None, "decode: Instance(...) is created")
+    lists = [s for s in body if isinstance(s, (ast.Assign, ast.AnnAssign))
+             and isinstance(s.value, ast.ListComp) and isinstance(
+                 s.value.elt, ast.List)]
+    items_name = (lists[0].targets[0] if isinstance(lists[0], ast.Assign)
+                  else lists[0].target).id if lists else None
+    ok_call = len(call.args) == 4 and not call.keywords and isinstance(
+        call.args[3], ast.Name) and call.args[3].id == items_name
+    ctx.ob("D17.2", fi, call, ok_call,
+           "the instance is created as Instance(name, width, height, items) "
+           "from the decoded item list" if ok_call else
+           f"`{ast.unparse(call)[:90]}` does not pass the decoded item list "
+           "as the fourth argument", construct="Instance receives the items")
+    if not ok_call:
+        return
     items = call.args[3].id
     # phases
     phase1 = next((s for s in body if isinstance(s, ast.For) and any(
@@ -171,13 +198,28 @@ def run(ctx: Ctx) -> None:
     phase2 = next((s for s in body if isinstance(s, ast.While) and any(
         isinstance(n, ast.Name) and n.id == "current_area"
         for n in ast.walk(s.test))), None)
-    ctx.need(phase1 is not None, "decode: phase-1 splitting loop")
+    if phase1 is None:
+        ctx.ob("D17.1", fi, fi.node, False,
+               "no loop appends the second piece of a cut to the item list: "
+               "the number of items never reaches the template's",
+               construct="one append per cut")
+        return
     ctx.need(phase2 is not None, "decode: phase-2 slack loop guarded by "
              "current_area")
     _phase1(ctx, fi, phase1, items)
     _phase2(ctx, fi, phase2, items, body)
     _dataflow(ctx, fi, body, call, phase1, phase2)
     _determinism(ctx, fi, xname)
+    ctx.rule("D17.5", "every piece written into an item has size >= 1")
+    _positive_pieces(ctx, fi, items)
+    ctx.rule("D17.6", "item selections stay inside the list")
+    _selection(ctx, fi, items)
+    ctx.rule("D17.7", "equal items are merged with their multiplicity; the "
+             "instance is delivered")
+    _merge_and_deliver(ctx, fi, items, call)
+    ctx.rule("D17.8", "search protocol: domains of the cutting dimension "
+             "and direction, full cyclic scan, safe moduli")
+    _search_protocol(ctx, fi)
     _clamps(ctx)
     ctx.assumptions += [
         "items are [width, height] lists; cut_dimension is 0 or 1",
@@ -199,7 +241,11 @@ def _top_env(be: BlockEval, body: list[ast.stmt], upto: ast.stmt) -> Env:
 
 def _phase1(ctx: Ctx, fi: FuncInfo, loop: ast.For, items: str) -> None:
     stores = _item_stores(fi, loop.body, items)
-    ctx.floor("phase1_item_stores", len(stores), 2)
+    ctx.count("phase1_item_stores", len(stores))
+    ctx.ob("D17.1", fi, loop, len(stores) >= 2,
+           "phase 1 writes both pieces of a cut" if len(stores) >= 2 else
+           f"phase 1 writes only {len(stores)} of the two pieces of a cut: "
+           "area is created or lost", construct="both pieces written")
     # blocks that append
     blocks: list[list[ast.stmt]] = []
     for st in stores:
@@ -515,7 +561,7 @@ def _determinism(ctx: Ctx, fi: FuncInfo, xname: str) -> None:
             if src.split(".")[-1] in ("default_rng", "RandomState",
                                       "Random", "seed", "SeedSequence"):
                 gens.append(n)
-    ctx.floor("decode_generators", len(gens), 1)
+    ctx.count("decode_generators", len(gens))
     for g in gens:
         names = {n.id for a in list(g.args) + [k.value for k in g.keywords]
                  for n in ast.walk(a) if isinstance(n, ast.Name)}
@@ -589,3 +635,423 @@ def _is_unit_clamp(repo: Any, fi: FuncInfo, e: ast.expr | None) -> bool:
         return False
     lo, hi = (cv[0], cv2[0]) if outer == "max" else (cv2[0], cv[0])
     return lo == 0 and hi == 1
+
+
+# ------------------------------------------------------------------ D17.5
+def _lin_expr(e: ast.expr) -> Any:
+    from sa.lin import Lin
+    if isinstance(e, ast.Constant) and isinstance(e.value, int) and \
+            not isinstance(e.value, bool):
+        return Lin.const(e.value)
+    if isinstance(e, ast.Name):
+        return Lin.sym(e.id)
+    if isinstance(e, ast.BinOp) and isinstance(e.op, (ast.Add, ast.Sub)):
+        a, b = _lin_expr(e.left), _lin_expr(e.right)
+        if a is None or b is None:
+            return None
+        return a + b if isinstance(e.op, ast.Add) else a - b
+    if isinstance(e, ast.UnaryOp) and isinstance(e.op, ast.USub):
+        a = _lin_expr(e.operand)
+        return None if a is None else -a
+    return None
+
+
+def _lin_cond(t: ast.expr, truth: bool) -> list[Any]:
+    if isinstance(t, ast.UnaryOp) and isinstance(t.op, ast.Not):
+        return _lin_cond(t.operand, not truth)
+    if isinstance(t, ast.BoolOp) and isinstance(t.op, ast.And) and truth:
+        return [f for v in t.values for f in _lin_cond(v, True)]
+    if isinstance(t, ast.Compare) and truth:
+        out = []
+        left = t.left
+        for op, right in zip(t.ops, t.comparators):
+            a, b = _lin_expr(left), _lin_expr(right)
+            left = right
+            if a is None or b is None:
+                continue
+            d = b - a
+            if isinstance(op, ast.Lt):
+                out.append(d - 1)
+            elif isinstance(op, ast.LtE):
+                out.append(d)
+            elif isinstance(op, ast.Gt):
+                out.append(-d - 1)
+            elif isinstance(op, ast.GtE):
+                out.append(-d)
+            elif isinstance(op, ast.Eq):
+                out += [d, -d]
+        return out
+    return []
+
+
+def _positive_pieces(ctx: Ctx, fi: FuncInfo, items: str) -> None:
+    """Every size written into an item is proven >= 1 under its guards."""
+    from sa.lin import entails
+    n_sites = 0
+
+    def walk(stmts: list[ast.stmt], facts: list[Any],
+             alias: set[str]) -> None:
+        nonlocal n_sites
+        for s in stmts:
+            if isinstance(s, (ast.Assign, ast.AnnAssign)) and s.value is not \
+                    None and isinstance(
+                    s.targets[0] if isinstance(s, ast.Assign) else s.target,
+                    ast.Name):
+                tg = (s.targets[0] if isinstance(s, ast.Assign)
+                      else s.target).id
+                v = s.value
+                if (isinstance(v, ast.Subscript) and ast.unparse(
+                        v.value) == items) or (
+                        isinstance(v, ast.Call) and isinstance(
+                            v.func, ast.Attribute) and v.func.attr == "copy"
+                        and isinstance(v.func.value, ast.Name)
+                        and v.func.value.id in alias):
+                    alias.add(tg)
+            if isinstance(s, ast.Assign) and isinstance(
+                    s.targets[0], ast.Subscript) and isinstance(
+                    s.targets[0].value, ast.Name) and \
+                    s.targets[0].value.id in alias:
+                n_sites += 1
+                g = _lin_expr(s.value)
+                ok = g is not None and entails(facts, g - 1)
+                ctx.ob("D17.5", fi, s, ok,
+                       f"`{ast.unparse(s)[:70]}` writes a size >= 1 (linear "
+                       "entailment from the guards of the cut)" if ok else
+                       f"`{ast.unparse(s)[:70]}` can write a size < 1: the "
+                       "decoded instance would contain an empty item and be "
+                       "rejected", construct=f"piece "
+                       f"{ast.unparse(s.value)[:40]}")
+            if isinstance(s, ast.If):
+                walk(s.body, facts + _lin_cond(s.test, True), alias)
+                walk(s.orelse, facts + _lin_cond(s.test, False), alias)
+            elif isinstance(s, (ast.For, ast.While)):
+                walk(s.body, list(facts), alias)
+    walk(func_body(fi), [], set())
+    ctx.count("piece_size_stores", n_sites)
+    ctx.ob("D17.5", fi, fi.node, n_sites >= 3,
+           f"{n_sites} stores of item sizes examined" if n_sites >= 3 else
+           f"only {n_sites} stores of item sizes found (phase 1 writes both "
+           "pieces, phase 2 the shrunk one)", construct="piece stores",
+           nontrivial=False)
+
+
+# ------------------------------------------------------------------ D17.6
+def _selection(ctx: Ctx, fi: FuncInfo, items: str) -> None:
+    """items[...] is only indexed with (expr) % (current number of items)."""
+    problems = []
+    n = 0
+    for s in ast.walk(fi.node):
+        if isinstance(s, (ast.Assign, ast.AnnAssign)) and isinstance(
+                s.value, ast.Subscript) and ast.unparse(
+                s.value.value) == items and isinstance(
+                s.value.slice, ast.Name):
+            idx = s.value.slice.id
+            if idx in ("lo", "hi"):
+                continue
+            n += 1
+            defs = [d for d in ast.walk(fi.node) if isinstance(
+                d, (ast.Assign, ast.AnnAssign)) and d.value is not None
+                and isinstance(d.targets[0] if isinstance(d, ast.Assign)
+                               else d.target, ast.Name) and (
+                    d.targets[0] if isinstance(d, ast.Assign)
+                    else d.target).id == idx]
+            for d in defs:
+                v = d.value
+                if isinstance(v, ast.Name):      # orig_sel_i = sel_i etc.
+                    continue
+                if not (isinstance(v, ast.BinOp) and isinstance(
+                        v.op, ast.Mod) and isinstance(v.right, ast.Name)
+                        and v.right.id == "cur_n_items"):
+                    problems.append(
+                        f"`{ast.unparse(d)[:70]}`: the item index is not "
+                        "reduced modulo the current number of items")
+    # cur_n_items is the length of the list in both phases
+    lens = [d for d in ast.walk(fi.node) if isinstance(
+        d, (ast.Assign, ast.AnnAssign)) and d.value is not None and
+        ast.unparse(d.targets[0] if isinstance(d, ast.Assign)
+                    else d.target) == "cur_n_items"]
+    ok_len = len(lens) == 1 and ast.unparse(lens[0].value).replace(
+        " ", "") in (f"list.__len__({items})", f"len({items})")
+    if not ok_len:
+        problems.append("phase 2 does not take the number of items from "
+                        "the list")
+    ctx.ob("D17.6", fi, fi.node, not problems and n >= 2,
+           f"all {n} item selections index the list with a value reduced "
+           "modulo the current number of items (0 <= index < len)" if
+           not problems and n >= 2 else "; ".join(problems) or
+           "item selections not found", construct="item selection in range")
+
+
+# ------------------------------------------------------------------ D17.7
+def _merge_and_deliver(ctx: Ctx, fi: FuncInfo, items: str,
+                       call: ast.Call) -> None:
+    body = func_body(fi)
+
+    def src(n: ast.AST) -> str:
+        return ast.unparse(n).replace(" ", "")
+    problems: list[str] = []
+    sorts = [s for s in body if isinstance(s, ast.Expr)
+             and src(s.value) == f"{items}.sort()"]
+    merge = None
+    for s in body:
+        if isinstance(s, ast.While) and sorts and body.index(s) > \
+                body.index(sorts[0]) and isinstance(
+                s.test, ast.Compare) and isinstance(s.test.left, ast.Name):
+            merge = s
+            break
+    if not sorts or merge is None:
+        problems.append("equal items are not brought together (sort) and "
+                        "merged")
+    else:
+        lo = merge.test.left.id
+        nn = src(merge.test.comparators[0])
+        if not isinstance(merge.test.ops[0], ast.Lt):
+            problems.append("the merge scan does not run while lo < n")
+        pre = body[:body.index(merge)]
+        lo0 = [s for s in pre if isinstance(s, (ast.Assign, ast.AnnAssign))
+               and src(s.targets[0] if isinstance(s, ast.Assign)
+                       else s.target) == lo]
+        n0 = [s for s in pre if isinstance(s, (ast.Assign, ast.AnnAssign))
+              and src(s.targets[0] if isinstance(s, ast.Assign)
+                      else s.target) == nn]
+        if not lo0 or src(lo0[-1].value) != "0":
+            problems.append("the merge scan does not start at 0")
+        if not n0 or src(n0[-1].value) not in (f"list.__len__({items})",
+                                               f"len({items})"):
+            problems.append("the merge scan does not cover the whole list")
+        mb = merge.body
+        scan = next((s for s in mb if isinstance(s, ast.While) and
+                     isinstance(s.test, ast.BoolOp)), None)
+        dele = next((s for s in mb if isinstance(s, ast.While) and
+                     isinstance(s.test, ast.Compare)), None)
+        if scan is None or dele is None:
+            problems.append("merge: scan-equal / delete-duplicates loops "
+                            "not found")
+        else:
+            hi = None
+            parts = [src(v) for v in scan.test.values]
+            for v in scan.test.values:
+                if isinstance(v, ast.Compare) and isinstance(
+                        v.left, ast.Name) and src(v.comparators[0]) == nn:
+                    hi = v.left.id
+            cur = next((src(s.targets[0] if isinstance(s, ast.Assign)
+                            else s.target) for s in mb if isinstance(
+                s, (ast.Assign, ast.AnnAssign)) and s.value is not None
+                and src(s.value) == f"{items}[{lo}]"), None)
+            if hi is None or cur is None or not isinstance(
+                    scan.test.op, ast.And) or sorted(parts) != sorted(
+                    [f"{hi}<{nn}", f"{items}[{hi}]=={cur}"]) or [
+                    src(s) for s in scan.body] != [f"{hi}+=1"]:
+                problems.append("the run of equal items is not scanned as "
+                                "`while hi < n and items[hi] == cur: hi += "
+                                "1`")
+            else:
+                seq = [src(s) for s in mb]
+                want_mult = f"{cur}.append({hi}-{lo})"
+                if want_mult not in seq:
+                    problems.append("the multiplicity hi - lo is not "
+                                    "appended to the kept item")
+                if src(dele.test) != f"{lo}<{hi}" or sorted(
+                        src(s) for s in dele.body) != sorted(
+                        [f"del{items}[{hi}]", f"{hi}-=1", f"{nn}-=1"]):
+                    problems.append("duplicates are not deleted one by one "
+                                    "(del items[hi]; hi -= 1; n -= 1 while "
+                                    "lo < hi)")
+                if f"{hi}-=1" not in seq or f"{lo}+=1" not in seq or \
+                        f"{hi}={lo}" not in [
+                        s_.replace(":int", "") for s_ in seq]:
+                    problems.append("merge bookkeeping (hi = lo; ...; hi -= "
+                                    "1; ...; lo += 1) incomplete")
+                elif seq.index(want_mult) > seq.index(f"{hi}-=1") if \
+                        want_mult in seq else False:
+                    problems.append("the multiplicity is computed after hi "
+                                    "was moved back")
+    ctx.ob("D17.7", fi, merge or fi.node, not problems,
+           "equal items are merged into one row whose third entry is the "
+           "length of the run: the total number of items is preserved"
+           if not problems else "; ".join(problems),
+           construct="merge of equal items")
+    # ---- the instance is built after the merge and delivered on all paths
+    from sa.cfg import CFG
+    cfg = CFG(fi.node)
+    mk = next((n for n in cfg.nodes if n.kind == "stmt" and any(
+        c is call for c in ast.walk(n.ast))), None)
+    okd = False
+    why = "Instance(...) statement not found"
+    if mk is not None and isinstance(mk.ast, (ast.Assign, ast.AnnAssign)):
+        res = src(mk.ast.targets[0] if isinstance(mk.ast, ast.Assign)
+                  else mk.ast.target)
+        yn = fi.params[2]
+
+        def delivers(n: Any) -> bool:
+            a = n.ast
+            if n.kind != "stmt":
+                return False
+            if isinstance(a, ast.Assign) and src(a.targets[0]) == \
+                    f"{yn}[0]" and src(a.value) == res:
+                return True
+            return isinstance(a, ast.Expr) and src(a.value) in (
+                f"{yn}.append({res})",)
+        okd = not cfg.can_reach_avoiding(mk, cfg.exit, delivers)
+        why = "a path ends without storing the instance in the receiver"
+        # y[0] = res only when the list is non-empty
+        for n in cfg.nodes:
+            if delivers(n) and isinstance(n.ast, ast.Assign):
+                guard = [t for t in cfg.nodes if t.kind == "test" and any(
+                    m is n and lb is True for m, lb in t.succ)]
+                if not guard or src(guard[0].ast) not in (
+                        f"list.__len__({yn})>0", f"len({yn})>0",
+                        f"len({yn})>=1", yn):
+                    okd = False
+                    why = "y[0] is written although the receiver may be empty"
+        if merge is not None and body.index(merge) > next(
+                (i for i, s in enumerate(body) if any(
+                    c is call for c in ast.walk(s))), 10 ** 6):
+            okd = False
+            why = "the instance is built before the items are merged"
+    ctx.ob("D17.7", fi, call, okd,
+           "the instance is built from the merged items and stored in the "
+           "receiver on every path (y[0] if present, else appended)"
+           if okd else why, construct="instance delivered")
+
+
+# ------------------------------------------------------------------ D17.8
+def _search_protocol(ctx: Ctx, fi: FuncInfo) -> None:
+    """The search for a cuttable item visits every item in both directions
+    of cutting; no division by a value that may be zero."""
+    from sa.lin import entails
+    repo = ctx.repo
+    problems: list[str] = []
+
+    def asg(name: str) -> list[ast.expr]:
+        return [d.value for d in ast.walk(fi.node) if isinstance(
+            d, (ast.Assign, ast.AnnAssign)) and d.value is not None and
+            isinstance(d.targets[0] if isinstance(d, ast.Assign)
+                       else d.target, ast.Name) and (
+                d.targets[0] if isinstance(d, ast.Assign)
+                else d.target).id == name]
+
+    def domain(e: ast.expr, env: dict[str, set[int]]) -> set[int] | None:
+        c = repo.const(fi.module, e)
+        if isinstance(c, int) and not isinstance(c, bool):
+            return {c}
+        if isinstance(e, ast.IfExp):
+            a, b = domain(e.body, env), domain(e.orelse, env)
+            return None if a is None or b is None else a | b
+        if isinstance(e, ast.Name) and e.id in env:
+            return env[e.id]
+        if isinstance(e, ast.UnaryOp) and isinstance(e.op, ast.USub):
+            a = domain(e.operand, env)
+            return None if a is None else {-x for x in a}
+        if isinstance(e, ast.BinOp) and isinstance(e.op, (ast.Add, ast.Sub)):
+            a, b = domain(e.left, env), domain(e.right, env)
+            if a is None or b is None:
+                return None
+            return {x + y if isinstance(e.op, ast.Add) else x - y
+                    for x in a for y in b}
+        return None
+    # the cutting dimension is 0 or 1 (an index into [width, height])
+    for v in asg("cut_dimension"):
+        d = domain(v, {"cut_dimension": {0, 1}})
+        if d is None or not d <= {0, 1}:
+            problems.append(f"`cut_dimension = {ast.unparse(v)}` can leave "
+                            f"{{0, 1}} (values {sorted(d) if d else '?'})")
+    other = [n for n in ast.walk(fi.node) if isinstance(n, ast.Subscript)
+             and isinstance(n.slice, ast.BinOp) and "cut_dimension" in
+             ast.unparse(n.slice)]
+    for n in other:
+        d = domain(n.slice, {"cut_dimension": {0, 1}})
+        if d is None or not d <= {0, 1}:
+            problems.append(f"`{ast.unparse(n)}` indexes outside "
+                            "[width, height]")
+    # the search direction is +1 or -1
+    for v in asg("sel_dir"):
+        d = domain(v, {})
+        if d is None or not d <= {-1, 1}:
+            problems.append(f"`sel_dir = {ast.unparse(v)}`: with a step "
+                            "other than +-1 the search can miss items and "
+                            "never end")
+    # the step: sel_i := (sel_i + sel_dir) mod n (possibly re-normalised)
+    def strip(e: ast.expr) -> ast.expr:
+        # ((A % n) + n) % n  ==  A % n
+        if isinstance(e, ast.BinOp) and isinstance(e.op, ast.Mod) and \
+                isinstance(e.left, ast.BinOp) and isinstance(
+                e.left.op, ast.Add) and ast.unparse(e.left.right) == \
+                ast.unparse(e.right) and isinstance(
+                e.left.left, ast.BinOp) and isinstance(
+                e.left.left.op, ast.Mod) and ast.unparse(
+                e.left.left.right) == ast.unparse(e.right):
+            return e.left.left
+        return e
+    steps = [v for v in asg("sel_i") if "sel_dir" in ast.unparse(v)
+             or "sel_i" in ast.unparse(v)]
+    if len(steps) < 2:
+        problems.append("the step to the next item (sel_i + sel_dir) was "
+                        "not found in both phases")
+    for v in steps:
+        core = strip(v)
+        ok = isinstance(core, ast.BinOp) and isinstance(
+            core.op, ast.Mod) and ast.unparse(core.right) == "cur_n_items" \
+            and ast.unparse(core.left).replace(" ", "").strip("()") in (
+                "sel_i+sel_dir", "sel_dir+sel_i")
+        if not ok:
+            problems.append(f"`sel_i = {ast.unparse(v)[:60]}` is not (sel_i "
+                            "+ sel_dir) mod n: not every item is visited, "
+                            "the search may not end")
+    # divisions / moduli by values that are >= 1 under their guards
+    def walk(stmts: list[ast.stmt], facts: list[Any]) -> None:
+        for s in stmts:
+            if isinstance(s, ast.If):
+                walk(s.body, facts + _lin_cond(s.test, True))
+                walk(s.orelse, facts + _lin_cond(s.test, False))
+                continue
+            if isinstance(s, (ast.For, ast.While)):
+                walk(s.body, list(facts))
+                continue
+            for n in ast.walk(s):
+                if isinstance(n, ast.BinOp) and isinstance(
+                        n.op, (ast.Mod, ast.FloorDiv)) and isinstance(
+                        n.right, ast.Name) and n.right.id in (
+                        "cut_modulus",):
+                    g = _lin_expr(n.right)
+                    if g is None or not entails(facts, g - 1):
+                        problems.append(
+                            f"`{ast.unparse(n)[:50]}`: the divisor "
+                            f"`{n.right.id}` is not known to be >= 1 here")
+    walk(func_body(fi), [])
+    # bounded search loops: `while v < K` needs v to advance when the scan
+    # has wrapped around (sel_i == orig_sel_i)
+    for w in ast.walk(fi.node):
+        if isinstance(w, ast.While) and isinstance(
+                w.test, ast.Compare) and len(w.test.ops) == 1 and isinstance(
+                w.test.ops[0], ast.Lt) and isinstance(
+                w.test.left, ast.Name) and isinstance(repo.const(
+                    fi.module, w.test.comparators[0]), int) and any(
+                isinstance(x, ast.Name) and x.id == "orig_sel_i"
+                for x in ast.walk(w)):
+            v = w.test.left.id
+            incs = [a for a in ast.walk(w) if isinstance(a, ast.AugAssign)
+                    and isinstance(a.target, ast.Name) and a.target.id == v]
+            wraps = [i_ for i_ in ast.walk(w) if isinstance(i_, ast.If)
+                     and isinstance(i_.test, ast.Compare) and sorted(
+                         ast.unparse(x) for x in [i_.test.left]
+                         + i_.test.comparators) == ["orig_sel_i", "sel_i"]]
+            good = [a for a in incs if isinstance(a.op, ast.Add) and
+                    isinstance(repo.const(fi.module, a.value), int) and
+                    repo.const(fi.module, a.value) >= 1]
+            in_wrap = any(any(a is x for x in ast.walk(i_)) for a in good
+                          for i_ in wraps)
+            if len(good) != len(incs) or not in_wrap or any(
+                    isinstance(a, (ast.Assign, ast.AnnAssign)) and
+                    ast.unparse(a.targets[0] if isinstance(a, ast.Assign)
+                                else a.target) == v for a in ast.walk(w)):
+                problems.append(
+                    f"the bounded search `while {ast.unparse(w.test)}` does "
+                    f"not advance `{v}` when the scan has wrapped around: "
+                    "it may never end")
+    ctx.ob("D17.8", fi, fi.node, not problems,
+           "the cutting dimension stays in {0, 1}, the search direction in "
+           "{-1, +1}, the search steps to (sel_i + sel_dir) mod n and every "
+           "modulus by cut_modulus happens under cut_modulus >= 1"
+           if not problems else "; ".join(dict.fromkeys(problems)),
+           construct="search for a cuttable item")
